@@ -218,7 +218,7 @@ def three_mixed_schedule(seed, safeguard=False):
               {"op": "pause", "n": "follower2"},
               {"op": "bg", "count": 2},
               {"op": "sleep", "ms": 200 + rnd.randrange(400)},
-              {"op": "resume", "n": "follower2"} if False else {"op": "resumeall"},
+              {"op": "resumeall"},
               {"op": "barrier"},
               # the acknowledgement was lost: the client retries a post everybody has applied
               {"op": "waitdelivered", "c": 1},
@@ -538,8 +538,10 @@ class History:
                 break
         attempts = [e["seq"] for e in self.events if e["ev"] == "post" and (e["c"], e["cmid"]) == key]
         early = [a for a in attempts if proof_seq is None or a < proof_seq]
-        if proof_seq is not None and not early:
-            return (VISIBLE_SIGNATURE, "node %d incarnation %d had delivered/acknowledged the first copy (index %d) before any attempt was sent" % (
+        # the first copy itself stems from one attempt before the proof; every other
+        # attempt was sent when the proposer provably had the first copy applied
+        if proof_seq is not None and len(early) <= 1:
+            return (VISIBLE_SIGNATURE, "node %d incarnation %d had delivered/acknowledged the first copy (index %d) before any further attempt was sent" % (
                 p2[0], p2[1], first))
         if p1 is not None and p1 == p2:
             return F7B_SIGNATURE, ("both copies (indices %d, %d) proposed by node %d incarnation %d: the retry passed the duplicate "
@@ -758,15 +760,17 @@ def design_spec(ctx):
     workers = 4 if ctx.quick else 8
     runs = [("Cluster_small.cfg", 300), ("Cluster_small2.cfg", 300)]
     if not ctx.quick:
-        runs += [("Cluster_lc.cfg", 1200), ("Cluster_kills.cfg", 1500), ("Cluster_pauses.cfg", 900), ("Cluster_posts.cfg", 1200)]
+        runs += [("Cluster_cov.cfg", 600), ("Cluster_pauses.cfg", 900), ("Cluster_lc.cfg", 1200), ("Cluster_posts.cfg", 1200), ("Cluster_kills.cfg", 1500)]
     for cfg, to in runs:
-        r = ctx.tlc_must_pass("Cluster", cfg=cfg, workers=workers, timeout=to, coverage=(cfg == "Cluster_lc.cfg"), name="mc-" + cfg[:-4])
+        r = ctx.tlc_must_pass("Cluster", cfg=cfg, workers=workers, timeout=to, coverage=(cfg == "Cluster_cov.cfg"), name="mc-" + cfg[:-4])
         add(ctx, "states", r.distinct)
         add(ctx, "transitions", r.generated)
         add(ctx, "tlc_runs")
         ctx.log("TLC %s: %d distinct states, %d generated, depth %d" % (cfg, r.distinct, r.generated, r.depth))
-        if cfg == "Cluster_lc.cfg":
+        if cfg == "Cluster_cov.cfg":
             ctx.cov["coverage_zero_actions"] = zero_actions(r.out)
+            if ctx.cov["coverage_zero_actions"]:
+                ctx.note("vacuity: actions never taken in Cluster_cov.cfg: %s" % ctx.cov["coverage_zero_actions"])
     # as the code behaves: both shapes of the double application must be reachable in the model
     for cfg in ("Cluster_f7.cfg", "Cluster_f7b.cfg"):
         r = ctx.tlc("Cluster", cfg=cfg, workers=2, timeout=300, name="mc-" + cfg[:-4])
